@@ -1,0 +1,21 @@
+//! Verification hook (compiled only with `--cfg humphrey_verif`): a global, totally ordered log of labelled events,
+//! keyed by the listening port of the app that produced them.
+
+use std::sync::Mutex;
+
+static LOG: Mutex<Vec<(u16, &'static str)>> = Mutex::new(Vec::new());
+
+/// Appends an event.
+pub fn push(port: u16, label: &'static str) {
+    if let Ok(mut log) = LOG.lock() {
+        log.push((port, label));
+    }
+}
+
+/// Removes and returns the events recorded for `port`, in order.
+pub fn take(port: u16) -> Vec<&'static str> {
+    let mut log = LOG.lock().unwrap();
+    let mine = log.iter().filter(|e| e.0 == port).map(|e| e.1).collect();
+    log.retain(|e| e.0 != port);
+    mine
+}
